@@ -18,7 +18,7 @@ func init() {
 	Descriptions["C08"] = "Ordering/pairing rules on the per-connection goroutine of (*Server).Run, its deferred teardown, (*conn).close and the per-request goroutine of serveRequests: " +
 		"C08-funnel (teardown defer registered before anything that can exit), C08-sequence (requestsWg.Wait -> netConn.Close -> onCloseHandler(id), each exactly once, callback attempted on every path), " +
 		"C08-only (close / netConn.Close / onCloseHandler called nowhere else), C08-paired (every requestsWg.Add(1) immediately followed by a go whose first action defers Done; Done nowhere else), " +
-		"C08-current (Close applied to conn.netConn loaded after Wait). Decides exactly-once and ordering on every exit path; does not decide the goroutine/descriptor census."
+		"C08-current (Close applied to conn.netConn loaded after Wait), C08-interruptible (handlers blocked in socket I/O are interrupted on shutdown until the teardown has waited for them: rules C11-waker / -first / -lifetime, without which Wait -> Close -> OnClose is never reached on Stop). Decides exactly-once and ordering on every exit path; does not decide the goroutine/descriptor census."
 	Descriptions["C09"] = "C09-counter (connID given to newConn is a loop induction register phi(0,v+1), incremented once per iteration, never a shared cell), " +
 		"C09-immutable (conn.connID and Request.conn stored only by their constructors from parameters), C09-getter (ConnectionID returns r.conn.connID), " +
 		"C09-onclose (argument of onCloseHandler is a copy of the value given to newConn in the same iteration). Uniqueness within one Run; not across several Run calls or after overflow."
@@ -350,6 +350,26 @@ func checkC08(c *Ctx) {
 	if m.reqGo != nil {
 		R.Floor("C08-paired", 1)
 	}
+	// ---- C08-interruptible: "however it ends (... server Stop) x handlers blocked / writing": the teardown's Wait only
+	// returns - and the socket is only closed and reported - if handlers blocked in socket I/O are interrupted when the
+	// server stops, for as long as the connection's handlers run (rules C11-waker, C11-waker-first, C11-waker-lifetime)
+	if !c.Sub {
+		tmp := &Ctx{P: c.P, R: report.New("tmp"), Tier: c.Tier, Sub: true}
+		checkC11(tmp)
+		n := 0
+		for _, o := range tmp.R.Obls {
+			if o.Rule == "C11-waker" || o.Rule == "C11-waker-first" || o.Rule == "C11-waker-lifetime" {
+				n++
+				switch o.Status {
+				case report.Discharged:
+					R.OK("C08-interruptible", o.Construct, o.Pos, o.Detail)
+				default:
+					R.Fail("C08-interruptible", o.Construct, o.Pos, o.Detail)
+				}
+			}
+		}
+		R.Floor("C08-interruptible", 2)
+	}
 	c.R.NotDecided = append(c.R.NotDecided, "final census: no goroutine or descriptor of the connection remains (run-time)", "handlers that never return")
 	c.R.Assumptions = append(c.R.Assumptions, "WaitGroup.Wait returns only after the counter reached zero; Add happens-before Wait because both run on the connection goroutine")
 }
@@ -506,12 +526,16 @@ func checkC09(c *Ctx) {
 		n++
 		// the hand-built disconnection notice request: a fresh composite literal in a method of *conn
 		_, fresh := an.Strip(fs.Base).(*ssa.Alloc)
-		inShutdownLit := fs.Fn == m.serve || (fresh && fs.Fn.Signature.Recv() != nil && len(fs.Fn.Params) > 0 && ptrNamed(fs.Fn.Params[0].Type()) == "conn")
+		litRoot := fs.Fn // the method the literal is written in (possibly inside a function literal of it)
+		for litRoot.Parent() != nil {
+			litRoot = litRoot.Parent()
+		}
+		inShutdownLit := fs.Fn == m.serve || (fresh && litRoot.Signature.Recv() != nil && len(litRoot.Params) > 0 && ptrNamed(litRoot.Params[0].Type()) == "conn")
 		switch {
 		case fs.Fn == newRequest:
 			R.Check(an.Strip(fs.Store.Val) == ssa.Value(newRequest.Params[1]), "C09-immutable", "newRequest: store Request.conn", c.pos(fs.Store), "from parameter c", "Request.conn is not newRequest's conn parameter")
 		case inShutdownLit:
-			R.Check(an.Strip(fs.Store.Val) == ssa.Value(fs.Fn.Params[0]), "C09-immutable", fname(fs.Fn)+": store Request.conn", c.pos(fs.Store), "hand-built notice request carries the receiver conn", "Request.conn of the hand-built request is not the receiver")
+			R.Check(an.Strip(fs.Store.Val) == ssa.Value(litRoot.Params[0]), "C09-immutable", fname(fs.Fn)+": store Request.conn", c.pos(fs.Store), "hand-built notice request carries the receiver conn", "Request.conn of the hand-built request is not the receiver")
 		default:
 			R.Fail("C09-immutable", fname(fs.Fn)+": store Request.conn", c.pos(fs.Store), "Request.conn is written outside newRequest")
 		}
@@ -951,7 +975,7 @@ func checkC12(c *Ctx) {
 
 	// ---- C12-handlers-waited: "no handler is still running" rests on the requestsWg pairing of C08
 	{
-		tmp := &Ctx{P: c.P, R: report.New("tmp"), Tier: c.Tier}
+		tmp := &Ctx{P: c.P, R: report.New("tmp"), Tier: c.Tier, Sub: true}
 		checkC08(tmp)
 		n := 0
 		for _, o := range tmp.R.Obls {
